@@ -19,6 +19,7 @@ from pyproj import CRS, Proj, Transformer  # noqa: E402
 from pyproj.enums import TransformDirection  # noqa: E402
 
 PROP_FILE = "Properties/C01.v"
+GEN = ["GenC01"]
 RUN_FILES = ["Model/C01_run.v"]
 
 U64 = 2.0 ** -53
@@ -525,6 +526,8 @@ class Eval:
             self.fail("C01.init.pixel_upper_left", "pixel_upper_left=%r, expected (%r,%r)" % (at["pixel_upper_left"], float(o.X(0)), float(o.Y(0))))
         if at["shape"] != [h, w]:
             self.fail("C01.init.shape", "shape=%r" % (at["shape"],))
+        self.coq["attrs"].append("(%s, [%s])" % (A, "; ".join(fhex(v) for v in (
+            at["pixel_size_x"], at["pixel_size_y"], at["pixel_upper_left"][0], at["pixel_upper_left"][1], at["pixel_offset_x"], at["pixel_offset_y"]))))
         # ---------------- vectors
         v = obs["vec"]
         if isinstance(v, dict):
@@ -561,6 +564,10 @@ class Eval:
                 continue
             rows, cols = self.rows_cols(rq.get("slice"))
             X, Y = res["xy"]
+            ctx.case(("coords", self.spec["crs"], tuple(bits(v) for v in self.spec["extent"]), h, w, repr(rq)),
+                     nontrivial=rq.get("slice") is not None or rq.get("chunks") is not None,
+                     sample={"get_proj_coords": {"data_slice": rq.get("slice"), "chunks": rq.get("chunks"), "dtype": rq.get("dtype"), "shape": [h, w]},
+                             "impl_shape": X["shape"], "impl_norm_chunks": res.get("norm_chunks")})
             is_dask = rq.get("chunks") is not None
             if (X["kind"] == "dask") != is_dask:
                 self.fail("C01.coords.kind", "%s returns a %s array" % (what, X["kind"]))
@@ -639,8 +646,12 @@ class Eval:
                     if m:
                         self.fail("C01.index.row." + ("masked" if rm else "unmasked"), "get_array_indices_from_projection_coordinates y=%r (%s): %s" % (y, kd[1], m))
                 else:
-                    if math.isinf(x) and not cm or math.isinf(y) and not rm:
-                        self.fail("C01.index.infinite", "infinite coordinate (%r,%r) is not masked" % (x, y))
+                    if (not math.isfinite(x)) and not cm or (not math.isfinite(y)) and not rm:
+                        self.fail("C01.index.nonfinite", "non-finite coordinate (%r,%r) is not masked: col mask %s, row mask %s" % (x, y, cm, rm))
+                ctx.case(("pt", self.spec["crs"], tuple(bits(v) for v in self.spec["extent"]), h, w, bits(x), bits(y)),
+                         nontrivial=kd[0].startswith(("band", "border", "edge")) or kd[1].startswith(("band", "border", "edge")),
+                         sample={"lookup": {"x": x, "y": y, "kind": list(kd), "shape": [h, w], "extent": self.spec["extent"]},
+                                 "impl": {"col": cd, "col_masked": cm, "row": rd, "row_masked": rm}})
                 L.append("(%s, %s, %d, %s, %d, %s)" % (fhex(x), fhex(y), cd, "true" if cm else "false", rd, "true" if rm else "false"))
             self.coq["index_array"].append("(%s, [%s])" % (A, "; ".join(L)))
             L = []
@@ -750,6 +761,10 @@ class Eval:
                 continue
             rows, cols = self.rows_cols(rq.get("slice"))
             LO, LA = res["ll"]
+            ctx.case(("lonlats", self.spec["crs"], tuple(bits(v) for v in self.spec["extent"]), h, w, repr(rq)),
+                     nontrivial=rq.get("slice") is not None or rq.get("chunks") is not None or bool(rq.get("nprocs")),
+                     sample={"get_lonlats": {"data_slice": rq.get("slice"), "chunks": rq.get("chunks"), "dtype": rq.get("dtype"), "crs": self.name, "shape": [h, w]},
+                             "impl_shape": LO["shape"]})
             want = [len(rows), len(cols)]
             if LO["shape"] != want or LA["shape"] != want:
                 self.fail("C01.lonlats.shape", "%s returns shape %s, expected %s" % (what, LO["shape"], want))
@@ -959,7 +974,11 @@ class Eval:
 HDR = ("From Coq Require Import ZArith List Bool PrimFloat.\n"
        "From PR Require Import Base.Num Base.F64 Base.ListX Model.Grid Model.C01_Area Model.C01_run.\n"
        "Import ListNotations.\nOpen Scope Z_scope.\n")
-CHK = {"vectors": "chk_vectors", "coords_numpy": "chk_coords_numpy", "coords_dask": "chk_coords_dask",
+GEN_CHK = ("Definition chk_gen_arr (c : area float * list (float * float * float * float)) : bool := let '(a, pts) := c in "
+           "forallb (fun p => let '(x, y, cf, rf) := p in ff_eqb (gen01_array_coordinates_from_projection_coordinates F64 a x y) (cf, rf)) pts.\n"
+           "Definition chk_gen_proj (c : area float * list (float * float * float * float)) : bool := let '(a, pts) := c in "
+           "forallb (fun p => let '(cf, rf, x, y) := p in ff_eqb (gen01_projection_coordinates_from_array_coordinates F64 a cf rf) (x, y)) pts.\n")
+CHK = {"attrs": "chk_attrs", "vectors": "chk_vectors", "coords_numpy": "chk_coords_numpy", "coords_dask": "chk_coords_dask",
        "arr_of_proj": "chk_arr_of_proj", "proj_of_arr": "chk_proj_of_arr", "index_array": "chk_index_array",
        "index_scalar": "chk_index_scalar", "lonlat": "chk_lonlat"}
 def evaluate(ctx, specs):
@@ -986,8 +1005,9 @@ def run(ctx):
                 "ragged and 1-element dask chunks / float32, affine conversions on points built from exact fractional-index targets (centres, "
                 "cell borders, the eps tolerance band at both outer edges: inside, on the limit, outside; +-1 ulp), array and scalar integer "
                 "lookups incl. a malformed stream (NaN, inf, 1e30), every lon/lat accessor, lon/lat -> projection/array/index round trips. "
-                "An area case is non-trivial when a dask request has more than one block or a lookup point sits on a border or in the tolerance band; "
-                "distinct = distinct (CRS, extent bits, shape)" % len(POOL))
+                "Cases counted: one per area, per get_proj_coords/get_lonlats request and per lookup point. Non-trivial: an area with a multi-block "
+                "dask request or a border/band point; a request with a data_slice, chunks or nprocs; a lookup point on a cell border, an outer "
+                "edge or in the tolerance band. distinct = distinct (CRS, extent bits, shape[, request | point bits])" % len(POOL))
     rng = ctx.rng
     n = ctx.n(96, 1500)
     specs = [gen_area(rng, ctx.thorough, i) for i in range(n)]
@@ -1009,7 +1029,21 @@ def correspond(ctx, per_area, shard=12):
             lines[kind] = ls
             body.append("Definition cases_%s := [%s].\nEval vm_compute in (bad %s cases_%s).\n" % (kind, ";\n".join(ls), CHK[kind], kind))
         texts.append(("c01_cases_%03d" % (k // shard), HDR + "".join(body), lines))
-    res = ctx.coq_eval_many([(nm, t) for nm, t, _ in texts])
+    # the definitions regenerated from the current source (coq/Gen/GenC01.v), on all affine points
+    g1 = [l for c in per_area for l in c["arr_of_proj"]]
+    g2 = [l for c in per_area for l in c["proj_of_arr"]]
+    gen_files = []
+    for k in range(0, len(g1), 400):
+        gen_files.append(("c01_gen_%03d" % (k // 400), HDR.replace("Model.C01_run.", "Model.C01_run Gen.GenC01.") + GEN_CHK +
+                          "Definition c1 := [%s].\nEval vm_compute in (bad chk_gen_arr c1).\nDefinition c2 := [%s].\nEval vm_compute in (bad chk_gen_proj c2).\n" % (
+                              ";\n".join(g1[k:k + 400]), ";\n".join(g2[k:k + 400]))))
+    res = ctx.coq_eval_many([(nm, t) for nm, t, _ in texts] + gen_files)
+    for nm, _ in gen_files:
+        out, ok = res[nm]
+        vals = evals(out) if ok else []
+        if not ok or len(vals) != 2 or any(re.findall(r"\d", v) for v in vals):
+            ctx.broken.append(("correspondence:generated_affine", "the regenerated affine conversions (Gen/GenC01.v) and the implementation differ or do not evaluate (%s): %s" % (
+                nm, (" | ".join(vals) if vals else out[-300:])[:400])))
     for nm, _, lines in texts:
         out, ok = res[nm]
         vals = evals(out) if ok else []
